@@ -137,10 +137,10 @@ var ruleImmutAST = &Rule{
 		roots := p.readRoots()
 		reach := p.reachFrom(roots)
 		out.Counts["read_roots"] = len(roots)
-		out.Floors["read_roots"] = 30
+		out.Floors["read_roots"] = 10
 		mods := moduleFuncs(reach.Set)
 		out.Counts["reachable_module_functions"] = len(mods)
-		out.Floors["reachable_module_functions"] = 120
+		out.Floors["reachable_module_functions"] = 50
 		nw := 0
 		type lockedField struct {
 			owner *types.Named
@@ -204,7 +204,7 @@ var ruleImmutAST = &Rule{
 			}
 		}
 		out.Counts["writes_examined"] = nw
-		out.Floors["writes_examined"] = 100
+		out.Floors["writes_examined"] = 50
 		// census over the whole module: who mutates AST memory at all, and is
 		// any of them reachable from a read root?
 		var mutators []string
@@ -225,7 +225,7 @@ var ruleImmutAST = &Rule{
 		}
 		sort.Strings(mutators)
 		out.Counts["ast_mutators_in_module"] = len(mutators)
-		out.Floors["ast_mutators_in_module"] = 4 // the setNext family; proves such stores are visible to the rule
+		out.Floors["ast_mutators_in_module"] = 2 // the setNext family; proves such stores are visible to the rule
 		out.note("AST mutators in the module (all must be outside the read-reachable set): %s", shortList(mutators, 12))
 		return out
 	},
@@ -241,7 +241,7 @@ var ruleGlobals = &Rule{
 		reach := p.reachFrom(roots)
 		mods := moduleFuncs(reach.Set)
 		out.Counts["reachable_module_functions"] = len(mods)
-		out.Floors["reachable_module_functions"] = 150
+		out.Floors["reachable_module_functions"] = 50
 		nglob := 0
 		for _, pk := range p.ModPkgs {
 			if sp := p.SSAPkg[pk.PkgPath]; sp != nil {
@@ -253,7 +253,7 @@ var ruleGlobals = &Rule{
 			}
 		}
 		out.Counts["module_globals"] = nglob
-		out.Floors["module_globals"] = 10
+		out.Floors["module_globals"] = 3
 		nw, nargs := 0, 0
 		for _, fn := range mods {
 			if isInit(fn) {
@@ -302,7 +302,7 @@ var ruleGlobals = &Rule{
 		}
 		out.Counts["writes_examined"] = nw
 		out.Counts["call_arguments_examined"] = nargs
-		out.Floors["writes_examined"] = 150
+		out.Floors["writes_examined"] = 50
 		return out
 	},
 }
@@ -371,7 +371,7 @@ var ruleAmbient = &Rule{
 			}
 		}
 		out.Counts["calls_examined"] = ncalls
-		out.Floors["calls_examined"] = 400
+		out.Floors["calls_examined"] = 130
 		out.Counts["tabled_exceptions"] = len(ambientExceptions)
 		return out
 	},
@@ -663,7 +663,7 @@ var ruleInputRO = &Rule{
 		out.Counts["container_field_stores"] = nfs
 		out.Floors["container_field_stores"] = 2
 		out.Counts["container_writes_examined"] = n
-		out.Floors["container_writes_examined"] = 20
+		out.Floors["container_writes_examined"] = 7
 		out.Counts["writes_into_caller_data"] = nsus
 		return out
 	},
